@@ -4,7 +4,8 @@
    operators.  Everything else of C07 (statements, gen(), engines) is differential testing in
    checks/c07.py.  This file holds only the theorems, each closed by [exact] + Print Assumptions. *)
 From Coq Require Import ZArith Bool List.
-From MirV Require Import C07.Limits C07.CConv C07.C11Conv C07.CConvProofs C07.CFold C07.C11Fold C07.CFoldProofs.
+From MirV Require Import Base.W64 C07.Limits C07.CConv C07.C11Conv C07.CConvProofs C07.CFold C07.C11Fold C07.CFoldProofs
+  C07.BitField C07.BitFieldProofs.
 Local Open Scope Z_scope.
 
 (* c2mir's arithmetic_conversion (after fixes/C07-1.patch) is C11 6.3.1.8 on all 15 x 15 pairs of
@@ -64,3 +65,79 @@ Theorem fold_prefix_conv_refuted :
   fold_bin true false CAdd (mkc TULong 1) (mkc TLLong 1) <> rt_bin CAdd (mkc TULong 1) (mkc TLLong 1).
 Proof. exact conv_old_fold_refuted. Qed.
 Print Assumptions fold_prefix_boolcast_refuted.
+
+(* ---------------------------------------------------------------------------------------------
+   Bit-field access code of gen() (x86-64): the emitted load / store sequences of C07.BitField
+   (store_code / load_code, compared with `c2m -S` on every run) for ALL units, values, offsets and
+   widths.  wf_bf f: 0 < ubits <= 64, 0 <= boff, 0 < bwid, boff + bwid <= ubits (what the struct
+   layout establishes; property C08 is about the layout itself). *)
+
+(* a read gives the field's bits zero-extended (unsigned field) or sign-extended (signed field) *)
+Theorem bitfield_load_extends : forall f, wf_bf f = true -> forall u, bf_load f u = c11_read_bf f u.
+Proof. exact bf_load_spec. Qed.
+Print Assumptions bitfield_load_extends.
+
+(* store-then-load returns the value converted to the bit-field's type: modulo 2^width for an unsigned
+   field (C11 6.3.1.3p2), modulo 2^width into the signed range for a signed one (6.3.1.3p3 with gcc's
+   documented choice) *)
+Theorem bitfield_store_then_load : forall f, wf_bf f = true -> forall u v,
+  bf_load f (fst (bf_store f u v)) = c11_conv_bf f v.
+Proof. exact bf_store_load. Qed.
+Print Assumptions bitfield_store_then_load.
+
+(* the register pattern of a value stands for the value: only its low width bits matter *)
+Theorem bitfield_conv_of_register : forall f, wf_bf f = true -> forall x,
+  c11_conv_bf f (uwrap 64 x) = c11_conv_bf f x.
+Proof. exact c11_conv_reg. Qed.
+
+(* the bits of the storage unit outside [boff, boff + bwid) are unchanged by a store, and the unit stays
+   an ubits-bit pattern *)
+Theorem bitfield_store_frame : forall f, wf_bf f = true -> forall u v i, outside f i ->
+  Z.testbit (fst (bf_store f u v)) i = Z.testbit u i.
+Proof. exact bf_store_frame. Qed.
+Print Assumptions bitfield_store_frame.
+Theorem bitfield_store_range : forall f, wf_bf f = true -> forall u v, 0 <= fst (bf_store f u v) < 2 ^ ubits f.
+Proof. exact bf_store_range. Qed.
+Theorem bitfield_store_field : forall f, wf_bf f = true -> forall u v,
+  field_bits f (fst (bf_store f u v)) = uwrap (bwid f) v.
+Proof. exact bf_store_field. Qed.
+
+(* the value of the assignment expression is the stored, converted value (C11 6.5.16p3) *)
+Theorem bitfield_assignment_value : forall f, wf_bf f = true -> forall u v,
+  snd (bf_store f u v) = c11_conv_bf f v.
+Proof. exact bf_assign_value. Qed.
+Print Assumptions bitfield_assignment_value.
+
+(* _Bool bit-field: NE r, v, 0 then the unsigned store: reads back (and yields) v != 0 *)
+Theorem bitfield_bool_store : forall f, wf_bf f = true -> forall u v, bsigned f = false ->
+  bf_load f (fst (bf_store f u (m_ne0 v))) = m_ne0 v /\ snd (bf_store f u (m_ne0 v)) = m_ne0 v.
+Proof. exact bf_store_bool. Qed.
+
+(* a disjoint bit-field of the same unit reads the same value before and after *)
+Theorem bitfield_store_keeps_neighbour : forall f g u v,
+  wf_bf f = true -> wf_bf g = true -> ubits g = ubits f ->
+  (boff g + bwid g <= boff f \/ boff f + bwid f <= boff g) ->
+  bf_load g (fst (bf_store f u v)) = bf_load g u.
+Proof. exact bf_store_other_field. Qed.
+Print Assumptions bitfield_store_keeps_neighbour.
+
+(* the enclosing object as one little-endian number: every bit outside the field is unchanged (members
+   in the same unit, in overlapping units of another size, bytes outside the unit), and the unit read
+   back is the stored one *)
+Theorem bitfield_object_frame : forall f, wf_bf f = true -> forall uoff M v, 0 <= uoff -> forall j, 0 <= j ->
+  ~ (8 * uoff + boff f <= j < 8 * uoff + boff f + bwid f) ->
+  Z.testbit (obj_store f uoff M v) j = Z.testbit M j.
+Proof. exact obj_store_frame. Qed.
+Print Assumptions bitfield_object_frame.
+Theorem bitfield_object_unit : forall f, wf_bf f = true -> forall uoff M v, 0 <= uoff ->
+  obj_unit f uoff (obj_store f uoff M v) = fst (bf_store f (obj_unit f uoff M) v).
+Proof. exact obj_store_unit. Qed.
+
+(* non-vacuity: `int b:5` at bit 3 of a 32-bit unit (struct S {unsigned a:3; int b:5; ...}); storing 17
+   into a unit of all ones reads back -15, keeps the other 27 bits, and the code is the 7-insn sequence *)
+Example bitfield_wf_example : wf_bf {| ubits := 32; usigned := true; boff := 3; bwid := 5; bsigned := true |} = true.
+Proof. reflexivity. Qed.
+Example bitfield_store_example :
+  let f := {| ubits := 32; usigned := true; boff := 3; bwid := 5; bsigned := true |} in
+  bf_store f (2 ^ 32 - 1) 17 = (2 ^ 32 - 1 - 14 * 8, 2 ^ 64 - 15) /\ length (store_code f) = 7%nat.
+Proof. vm_compute. split; reflexivity. Qed.
